@@ -95,6 +95,11 @@ mod error;
 mod iter;
 mod mem_size;
 
+#[cfg(lru_mem_verif)]
+mod verif;
+#[cfg(lru_mem_verif)]
+pub use verif::{VerifNode, VerifSnapshot};
+
 /// An LRU (least-recently-used) cache that stores values associated with keys.
 /// Insertion, retrieval, and removal all have average-case complexity in O(1).
 /// The cache has an upper memory bound, which is set at construction time.
